@@ -4,8 +4,8 @@ From Alp Require Import Base.Str Base.Types Model.Path Model.Import Model.Watch.
 Import ListNotations.
 Definition hw_eqb (a b : option (has * wants)) : bool :=
   match a, b with None, None => true | Some (h1, w1), Some (h2, w2) => has_eqb h1 h2 && wants_eqb w1 w2 | _, _ => false end.
-Definition FX (sy rg dn tm ts lk : bool) (det : option str) (reg ak fk : bool) (cr : option (has * wants)) : facts :=
-  {| is_symlink := sy; is_regular := rg; dot_name := dn; in_temp_dir := tm; through_symlink := ts; locked := lk; detected := det;
+Definition FX (sy rg dn tm ts lk : bool) (pth : str) (det : option str) (reg ak fk : bool) (cr : option (has * wants)) : facts :=
+  {| is_symlink := sy; is_regular := rg; dot_name := dn; in_temp_dir := tm; through_symlink := ts; locked := lk; ipath := pth; detected := det;
      register := reg; acq_known := ak; file_known := fk; copy_row := cr |}.
 (* observed: (request completed, acquisition record created, file record created, copy row afterwards) *)
 Definition icase := (facts * (bool * bool * bool * option (has * wants)))%type.
